@@ -3,7 +3,7 @@
 From Coq Require Import List NArith Bool Permutation.
 From SV Require Import Fmt.VpkDir Fmt.VpkDirProofs Fmt.VpkName Fmt.VpkNameSplit Fmt.VpkNameProofs SM.Vpk SM.VpkProofs.
 From SV Require Import Fmt.VpkArchName Fmt.VpkArchNameProofs SM.VpkRefine Fmt.VpkDirV2.
-From SV Require Import Fmt.VpkNullStr Fmt.VpkNullStrProofs SM.VpkNested SM.VpkNestedProofs SM.VpkApi SM.VpkApiProofs SM.VpkNestedMap SM.VpkNestedMapProofs SM.VpkNestedSim.
+From SV Require Import Fmt.VpkNullStr Fmt.VpkNullStrProofs SM.VpkNested SM.VpkNestedProofs SM.VpkApi SM.VpkApiProofs SM.VpkNestedMap SM.VpkNestedMapProofs SM.VpkNestedSim SM.VpkNestedWf SM.VpkPlace SM.VpkPlaceProofs.
 Import ListNotations.
 Open Scope N_scope.
 
@@ -365,3 +365,61 @@ Theorem c13_nested_simulates_table_delete : forall prog, prog_safe prog = true -
   | None => alookup k tb = None
   end.
 Proof. exact nrel_ndel. Qed.
+
+(** ---- Python dicts have no two entries with one key: what __iter__ walks is the table (SM/VpkNestedWf.v) ---- *)
+
+(** [tree_wf] (distinct keys at each of the three levels) holds for the empty archive and is kept by new_file and __delitem__. *)
+Theorem c13_nested_wf_invariant :
+  tree_wf []
+  /\ (forall g1 g2, goc_ok g1 = true -> goc_ok g2 = true -> forall t k i t', tree_wf t -> nins g1 g2 t k i = Some t' -> tree_wf t')
+  /\ (forall prog t k t', tree_wf t -> ndel prog t k = Some t' -> tree_wf t').
+Proof. split; [exact tree_wf_nil|]. split; [exact tree_wf_nins|exact tree_wf_ndel]. Qed.
+
+(** For such nested dicts related to a table of the state machine: the files __iter__ / __len__ / filenames() walk ([flat_tree], the
+    three-level walk the listing obligations establish) are exactly the table's names, none twice, each with the table's entry ... *)
+Theorem c13_nested_walk_is_table : forall t tb, tree_wf t -> nrel t tb -> NoDup (map fst tb) ->
+  Permutation (map fst (flat_tree t)) (map fst tb) /\ forall k, alookup k (flat_tree t) = alookup k tb.
+Proof. exact wf_walk_is_table. Qed.
+
+(** ... and __delitem__ raises KeyError exactly when the table has no such file. *)
+Theorem c13_nested_delete_raises_iff_missing : forall prog, prog_safe prog = true -> forall t tb k, tree_wf t -> nrel t tb ->
+  (ndel prog t k = None <-> alookup k tb = None).
+Proof. exact wf_ndel_exact. Qed.
+
+(** Every sequence of new_file / in-place updates of an entry / deletes from the empty archive: no insertion raises, and what __iter__
+    walks afterwards is exactly the table SM/Vpk.v holds after the same [aset]/[adel] operations. *)
+Theorem c13_nested_history_lists_table : forall g1 g2 prog, goc_ok g1 = true -> goc_ok g2 = true -> prog_safe prog = true -> forall ops,
+  exists t, nt_run g1 g2 prog [] ops = Some t
+  /\ Permutation (map fst (flat_tree t)) (map fst (tb_run [] ops))
+  /\ forall k, alookup k (flat_tree t) = alookup k (tb_run [] ops).
+Proof. exact nested_history_lists_table. Qed.
+
+(** ---- where FileInfo.write puts the data, as a decision table (SM/VpkPlace.v; Gen/VpkPlace_gen.v g_place_table) ---- *)
+
+(** [want_cut] / [want_dest], against which the table obtained by executing FileInfo.write on symbolic values is compared
+    ([place_table_ok], instance obligation), are exactly what [write_info] of the state machine does: for every configuration, state,
+    entry, data and index with a changed checksum, the preload is the data up to the cut (the limit if the VPK is a directory with a
+    limit <= MAX_PRELOAD, MAX_PRELOAD otherwise), the stored length is that of the rest, and the rest goes nowhere (empty), to the end
+    of footer_data with the old length as offset (singular, no limit, or no index), or to the end of archive [x] with its old length
+    as offset. *)
+Theorem c13_write_placement_is_table : forall crc cf st i d ix, (crc d =? icrc i) = false ->
+  let cut := cut_val cf (want_cut (v_is_dir cf) (class_of cf)) in
+  let tail := skipn (N.to_nat cut) d in
+  let dest := want_dest (v_is_dir cf) (class_of cf) (is_none ix) (is_nil' tail) in
+  let '(st', i') := write_info crc cf st i d ix in
+  icrc i' = crc d /\ ipre i' = firstn (N.to_nat cut) d /\ ilen i' = len tail /\
+  match dest with
+  | DNone => st' = st /\ iidx i' = None /\ ioff i' = 0
+  | DFooter => foot st' = foot st ++ tail /\ archs st' = archs st /\ tbl st' = tbl st /\ iidx i' = None /\ ioff i' = len (foot st)
+  | DArch => exists x, ix = Some x /\ archs st' = arch_app x tail (archs st) /\ foot st' = foot st /\ tbl st' = tbl st
+                       /\ iidx i' = Some x /\ ioff i' = len (arch_get x (archs st))
+  | DOther => False
+  end.
+Proof. exact write_info_want. Qed.
+
+(** The table of the pinned code is accepted; a table without the cap at MAX_PRELOAD (defect 20 of round 1) and one that drops the rest
+    of a file written with arch_index None (defect 19) are rejected, as is an incomplete table. *)
+Theorem c13_place_tables_computed :
+  place_table_ok table_pinned = true /\ length table_pinned = 24%nat
+  /\ place_cut_ok table_no_cap = false /\ place_dest_ok table_tail_dropped = false /\ place_table_ok [] = false.
+Proof. exact place_tables_computed. Qed.
